@@ -37,6 +37,21 @@ def decision_edges(ctx, f, const_name):
     return out
 
 
+def decision_edges_l(ctx, f, const_name):
+    """[(test nid, succ nid, condition, truth)] like decision_edges, with the edge's condition"""
+    cfg = cfg_of(f)
+    out = []
+    for n in cfg.nodes:
+        if n.kind != "test":
+            continue
+        for (s, label) in cfg.succ[n.id]:
+            if isinstance(label, tuple) and label[0] == "cond":
+                for a in atoms_of(label[1], label[2]):
+                    if a[0] == "eq" and a[3] is True and any(x.endswith("." + const_name) for x in (a[1], a[2])):
+                        out.append((n.id, s, label[1], label[2]))
+    return out
+
+
 def s1(ctx, rep, clause="S1", prop_ctx="C02"):
     P = ctx.P
     f = P.method("Tuner", "_update_running_trials")
@@ -63,12 +78,13 @@ def s1(ctx, rep, clause="S1", prop_ctx="C02"):
     rec = {n.id for n in cfg.nodes if n.kind == "stmt" and isinstance(n.ast, ast.Assign)
            and any(isinstance(t, ast.Subscript) and U(t.value) == done and U(t.slice) == key for t in n.ast.targets)}
     for dec in ("STOP", "PAUSE"):
-        edges = decision_edges(ctx, f, dec)
-        edges = [(t, s) for t, s in edges if t in cfg.reachable(nid)]
+        from .common import consistent_with
+        edges = decision_edges_l(ctx, f, dec)
+        edges = [e for e in edges if e[0] in cfg.reachable(nid)]
         if not edges:
             raise AnchorError(f"_update_running_trials: no branch on SchedulerDecision.{dec}")
-        for t, s in edges:
-            p = cfg.path(s, head, deleted=rec, skip_labels=("exc",)) if s not in rec else None
+        for t, s, cnd, tru in edges:
+            p = cfg.path(s, head, deleted=rec, skip_labels=("exc",), edge_ok=consistent_with(cnd, tru)) if s not in rec else None
             rep.put(p is None, clause, "must_follow", f"Tuner._update_running_trials: {dec} edge records trial in {done}", f,
                     cfg.nodes[t].stmt, "further results of the same trial in this batch are skipped",
                     f"after a {dec} decision the trial is not recorded in {done}: its later results in the same batch "
